@@ -20,8 +20,17 @@
    property needs ("total": the view is EnumSorted, a function of the content)
    or the order of the renderings alone ("render": members that render alike
    tie and stay in host order, so `ord` leaks through a sorting site).  The
-   table is not written down from belief: the harness derives it from
-   observed executions. *)
+   entry tab["strings"] says the same about strings: "exact" (different
+   strings are never tied) or "folded" (strings are compared after some
+   folding - case, surrounding blanks, numeric value, accents, a prefix - so
+   near-duplicates tie).  The table is not written down from belief: the
+   harness derives it from observed executions.
+
+   Round 3: sites of natives that are handed the container itself and of the
+   stack-trace lines that show (abbreviated) arguments; stages for what a
+   native makes of the order of visit (the first offending member named in
+   an error, a reduction that does not commute, an abbreviation); the seeded
+   random generator (Rng...). *)
 EXTENDS Integers, Sequences, FiniteSets, SequencesExt, TLC
 
 ValOf(k) == 100 + ((k * 4) % 11)        \* distinct for k in 1..10 (and in 56..63), not monotone in k
@@ -47,8 +56,21 @@ AlikeTop  == 99
 IsAlike(e) == e > AlikeBase /\ e <= AlikeTop
 Key(e)     == IF IsAlike(e) THEN AlikeBase + 1 ELSE e
 
-Lt(a, b)    == a < b
-LtKey(a, b) == Key(a) < Key(b)
+(* NearBase+1 .. NearTop are strings that are NEAR-DUPLICATES of each other:
+   'Fig' / 'fig', 'fig' / 'fig ', '10' / '010', an accented and a plain
+   letter, two long texts with the same first 50 characters, '3' and 3.  They
+   are different values (different members of a set, different keys of a
+   map) and the order of the language separates them; an order that first
+   FOLDS its operands (lower case, trimmed, as a number, abbreviated ...) ties
+   them.  In the model consecutive pairs (23,24), (25,26) ... fold alike. *)
+NearBase == 22
+NearTop  == AlikeBase - 1
+IsNear(e)  == e > NearBase /\ e <= NearTop
+FoldKey(e) == IF IsNear(e) THEN NearBase + 1 + 2 * ((e - NearBase - 1) \div 2) ELSE e
+
+Lt(a, b)     == a < b
+LtKey(a, b)  == Key(a) < Key(b)
+LtFold(a, b) == FoldKey(a) < FoldKey(b)
 
 (* values flowing through a program: a collection or a sequence (uniform record) *)
 Coll(S, o) == [t |-> "coll", elems |-> S,  ord |-> o,    seq |-> << >>]
@@ -63,14 +85,16 @@ EnumRaw(c)    == c.ord
 (* a stable sort by the rendering alone (what `sorted(host set)` is when the
    order relation of the values is the order of their texts): every element is
    put behind the elements met before it whose key is not greater *)
-InsertStable(q, e) ==
-  LET later == {i \in 1..Len(q) : Key(q[i]) > Key(e)} IN
+InsertStable(kf, q, e) ==            \* kf: element -> sort key (a function)
+  LET later == {i \in 1..Len(q) : kf[q[i]] > kf[e]} IN
   IF later = {} THEN Append(q, e)
   ELSE LET i == CHOOSE m \in later : \A k \in later : m <= k
        IN  SubSeq(q, 1, i - 1) \o <<e>> \o SubSeq(q, i, Len(q))
-RECURSIVE StableByKey(_)
-StableByKey(q) == IF q = << >> THEN << >>
-                  ELSE InsertStable(StableByKey(SubSeq(q, 1, Len(q) - 1)), q[Len(q)])
+RECURSIVE StableBy(_, _)
+StableBy(kf, q) == IF q = << >> THEN << >>
+                   ELSE InsertStable(kf, StableBy(kf, SubSeq(q, 1, Len(q) - 1)), q[Len(q)])
+StableByKey(q)  == StableBy([e \in ToSet(q) |-> Key(e)], q)        \* ties: members that render alike
+StableByFold(q) == StableBy([e \in ToSet(q) |-> FoldKey(e)], q)    \* ties: near-duplicate strings
 
 (* the enumeration sites of src/ckl (file: what the code does there) *)
 Sites == {
@@ -94,17 +118,31 @@ Sites == {
   "destr.for.set",      \* nodes.py NodeFor, several loop variables, set of sets
   "destr.for.map",      \* nodes.py NodeFor, several loop variables, map of sets
   "render.set",         \* values.py ValueSet.__repr__
-  "render.map" }        \* values.py ValueMap.__repr__
+  "render.map",         \* values.py ValueMap.__repr__
+  "native.set",         \* functions.py / modules/*.ckl: a library function handed a set walks its members
+                        \*   (sorted, min, enumerate, any, all, String->join ...: Args.getAsList -> ValueSet.asList;
+                        \*   a function that reads .value walks the host set)
+  "native.map",         \* the same for a map (sorted(m), enumerate(m), count(m, v) ...)
+  "trace.set",          \* values.py Args.toStringAbbrev: the arguments in a stack-trace line, a set among them
+  "trace.map" }         \* the same, a map among them
 
 (* The table: site -> "sorted" | "raw", plus one entry "relation" that says
    with which relation the sorting sites (and sorted()) sort:
-   "total"  = Lt, "render" = LtKey with a stable sort. *)
-TabKeys   == Sites \cup {"relation"}
-AllSorted == [s \in TabKeys |-> IF s = "relation" THEN "total" ELSE "sorted"]   \* what the property states
-AllRaw    == [s \in TabKeys |-> IF s = "relation" THEN "total" ELSE "raw"]
-ByRender  == [s \in TabKeys |-> IF s = "relation" THEN "render" ELSE "sorted"]  \* every site sorts, by the text
+   "total"  = Lt, "render" = LtKey with a stable sort,
+   and one entry "strings": "exact" | "folded" (near-duplicate strings tie). *)
+TabKeys   == Sites \cup {"relation", "strings"}
+Tab(site, rel, str) == [s \in TabKeys |-> CASE s = "relation" -> rel [] s = "strings" -> str [] OTHER -> site]
+AllSorted == Tab("sorted", "total", "exact")     \* what the property states
+AllRaw    == Tab("raw", "total", "exact")
+ByRender  == Tab("sorted", "render", "exact")    \* every site sorts, by the text
+ByFold    == Tab("sorted", "total", "folded")    \* every site sorts, strings after folding
 
-SortBy(tab, q) == IF tab["relation"] = "total" THEN SortSeq(q, Lt) ELSE StableByKey(q)
+(* the key under which a sorting site sees an element *)
+KeyIn(tab, e) == IF tab["relation"] = "render" /\ IsAlike(e) THEN AlikeBase + 1
+                 ELSE IF tab["strings"] = "folded" THEN FoldKey(e) ELSE e
+
+SortBy(tab, q) == IF tab["relation"] = "total" /\ tab["strings"] = "exact" THEN SortSeq(q, Lt)
+                  ELSE StableBy([e \in ToSet(q) |-> KeyIn(tab, e)], q)
 
 KeysAt(site, c, tab) == IF tab[site] = "sorted" THEN SortBy(tab, c.ord) ELSE EnumRaw(c)
 
@@ -123,6 +161,24 @@ Enum(site, proj, c, tab) ==
     [] proj = "entries"    -> Entries(q)
     [] proj = "sortedvals" -> IF tab[site] = "sorted" THEN SortBy(tab, ValsOf(q)) ELSE ValsOf(q)
 
+(* ---- the seeded generator ------------------------------------------------
+   functions.py: a module-level `seed`; set_seed(n) stores n; every draw does
+   seed := (seed * 9301 + 49297) % 233280 and uses seed / 233280:
+   random() is that quotient (here the numerator), random(a) = random(0, a),
+   random(a, b) = floor(quotient * (b - a)) + a.  TLC ints are 32 bit:
+   the product is split, and (b - a) must stay below 9000. *)
+RngMod == 233280
+RngNext(s) == ((((s % RngMod) * 9000) % RngMod) + (s % RngMod) * 301 + 49297) % RngMod
+RngInt(nx, a, b) == ((nx * (b - a)) \div RngMod) + a
+(* draws: a sequence of <<a, b>> (an int in [a, b)) or <<0, 0>> (the decimal
+   form); the values drawn one after the other once the seed is s *)
+RECURSIVE RngDraws(_, _)
+RngDraws(s, draws) ==
+  IF draws = << >> THEN << >>
+  ELSE LET nx == RngNext(s)
+           d  == Head(draws)
+       IN  <<IF d[1] = 0 /\ d[2] = 0 THEN nx ELSE RngInt(nx, d[1], d[2])>> \o RngDraws(nx, Tail(draws))
+
 (* ---- programs = pipelines of stages ------------------------------------ *)
 E(site, proj) == [k |-> "enum",  site |-> site, proj |-> proj, n |-> 0]
 B             == [k |-> "build", site |-> "",   proj |-> "",   n |-> 0]   \* collect into a new set/map
@@ -130,6 +186,15 @@ Take(n)       == [k |-> "take",  site |-> "",   proj |-> "",   n |-> n]   \* fir
 Sort          == [k |-> "sort",  site |-> "",   proj |-> "",   n |-> 0]   \* sorted(...)
 Sum           == [k |-> "sum",   site |-> "",   proj |-> "",   n |-> 0]   \* sum(...)
 Length        == [k |-> "len",   site |-> "",   proj |-> "",   n |-> 0]   \* length(...)
+FirstAbove(n) == [k |-> "firstabove", site |-> "", proj |-> "", n |-> n]  \* the first member a native cannot digest
+                                                                          \*   ("Cannot sum string": members > n)
+Fold          == [k |-> "fold",  site |-> "",   proj |-> "",   n |-> 0]   \* a reduction that does not commute
+                                                                          \*   (reduce with fn(a, b) b - a, a + '/' + b,
+                                                                          \*   a sum of decimals of different magnitude)
+Choice(n)     == [k |-> "choice", site |-> "",  proj |-> "",   n |-> n]   \* set_seed(n); Random->choice: the member at
+                                                                          \*   a drawn index
+Abbrev(n)     == [k |-> "abbrev", site |-> "",  proj |-> "",   n |-> n]   \* the first n and the last one (a long
+                                                                          \*   argument in a stack-trace line)
 
 P(id, stages) == [id |-> id, stages |-> stages]
 
@@ -172,7 +237,20 @@ Programs == <<
   P("spread.list.set+first",        <<E("spread.list.set", "elems"), Take(1)>>),
   P("aslist.set+sort",              <<E("aslist.set", "elems"), Sort>>),
   P("compr.map.values+sum",         <<E("compr.map.values", "vals"), Sum>>),
-  P("aslist.map+sum",               <<E("aslist.map", "sortedvals"), Sum>>)
+  P("aslist.map+sum",               <<E("aslist.map", "sortedvals"), Sum>>),
+  \* round 3: natives handed the container itself, error messages, reductions, stack-trace lines
+  P("native.set",                   <<E("native.set", "elems")>>),
+  P("native.map",                   <<E("native.map", "keys")>>),
+  P("native.set+sum",               <<E("native.set", "elems"), Sum>>),
+  P("native.set+firstbad",          <<E("native.set", "elems"), FirstAbove(1)>>),
+  P("native.set+fold",              <<E("native.set", "elems"), Fold>>),
+  P("native.map+fold",              <<E("native.map", "vals"), Fold>>),
+  P("aslist.set+firstbad",          <<E("aslist.set", "elems"), FirstAbove(1)>>),
+  P("aslist.set+fold",              <<E("aslist.set", "elems"), Fold>>),
+  P("aslist.set+choice",            <<E("aslist.set", "elems"), Choice(11)>>),
+  P("trace.set",                    <<E("trace.set", "elems"), Abbrev(2)>>),
+  P("trace.map",                    <<E("trace.map", "entries"), Abbrev(2)>>),
+  P("trace.set.all",                <<E("trace.set", "elems")>>)
 >>
 
 ProgIdx(id) == CHOOSE i \in 1..Len(Programs) : Programs[i].id = id
@@ -182,6 +260,18 @@ MinI(a, b) == IF a < b THEN a ELSE b
 RECURSIVE SumSeq(_)
 SumSeq(q) == IF q = << >> THEN 0 ELSE Head(q) + SumSeq(Tail(q))
 
+(* the first member above n, as a one-element sequence (none: empty) *)
+FirstAboveSeq(q, n) ==
+  LET I == {i \in 1..Len(q) : q[i] > n} IN
+  IF I = {} THEN << >> ELSE <<q[CHOOSE i \in I : \A j \in I : i <= j]>>
+(* a left fold with an operation that is neither commutative nor associative: fn(a, b) b - a *)
+RECURSIVE NcFoldSeq(_)
+NcFoldSeq(q) == IF q = << >> THEN 0
+              ELSE IF Len(q) = 1 THEN q[1]
+              ELSE q[Len(q)] - NcFoldSeq(SubSeq(q, 1, Len(q) - 1))
+(* the first n elements and the last one *)
+AbbrevSeq(q, n) == IF Len(q) <= n + 1 THEN q ELSE SubSeq(q, 1, n) \o <<q[Len(q)]>>
+
 (* one stage; newOrd = the internal order of a collection built here *)
 Apply(st, cur, tab, newOrd) ==
   CASE st.k = "enum"  -> SeqV(Enum(st.site, st.proj, cur, tab))
@@ -190,6 +280,11 @@ Apply(st, cur, tab, newOrd) ==
     [] st.k = "sort"  -> SeqV(SortBy(tab, cur.seq))
     [] st.k = "sum"   -> SeqV(<<SumSeq(cur.seq)>>)
     [] st.k = "len"   -> SeqV(<<Len(cur.seq)>>)
+    [] st.k = "firstabove" -> SeqV(FirstAboveSeq(cur.seq, st.n))
+    [] st.k = "fold"  -> SeqV(<<NcFoldSeq(cur.seq)>>)
+    [] st.k = "abbrev" -> SeqV(AbbrevSeq(cur.seq, st.n))
+    [] st.k = "choice" -> SeqV(IF cur.seq = << >> THEN << >>
+                               ELSE <<cur.seq[RngInt(RngNext(st.n), 0, Len(cur.seq)) + 1]>>)
 
 (* the reference: what the program shows when every enumeration is the
    sorted one (then no internal order matters, so any `ord` will do) *)
